@@ -65,6 +65,8 @@ def crash_oracle(h, i, line, impl, orc):
     """C05: the crash-cut enumeration of the harness must end in `ok` for every mutating operation"""
     if orc is None:
         return None
+    if orc.startswith("v="):
+        return proof_oracle(h, i, line, impl, orc)   # the verdict attached to a proof query (not a mutating operation)
     if orc.endswith(" ok") or orc == "ok":
         return None
     return "crash cut: " + orc
@@ -74,6 +76,8 @@ def fault_oracle(h, i, line, impl, orc):
     """C17: every single-fault position must surface as an error or leave the answer unchanged"""
     if orc is None or orc.endswith(" ok") or orc.endswith("skipped"):
         return None
+    if orc.startswith("v="):
+        return proof_oracle(h, i, line, impl, orc)
     op = line.split()
     op = op[2] if op[0] == "imm" else op[0]
     if op in ("irange", "irangeinc", "replaycs"):
@@ -86,7 +90,7 @@ def conc_oracle(h, i, line, impl, orc):
     the export pin holds"""
     if orc is None or orc.endswith(" ok") or orc == "ok":
         return None
-    if not (orc.startswith("points=") or orc.startswith("iter ") or line.startswith("pinprune")):
+    if orc.startswith("v="):
         return proof_oracle(h, i, line, impl, orc)   # the verdict attached to a proof query, not a schedule
     return "schedule: " + orc
 
@@ -209,7 +213,7 @@ def sig_multibatch_delete_cut(lines, d):
     # K7c: a deletion of old versions / a rollback split over several physical writes
     why = d.get("why") or ""
     return (d["kind"] == "oracle" and d["line"].split()[0] in ("prune", "loadow", "delfrom") and _small_thr(lines, d["idx"])
-            and ("mixture:" in why or "load-failed" in why or "retry-" in why or "index:" in why))
+            and ("mixture:" in why or "load-failed" in why or "retry-" in why or "index:" in why or "lost:" in why))
 
 
 def sig_v2_recommit_sharded(lines, d):
